@@ -37,7 +37,8 @@ def extra_shapes():
 
 
 def templates(ctx):
-    T = [dict(t, shape=t['name']) for t in zc.templates(ctx.quick(), only_wf=True)]
+    # the decimal-text number shapes of the Zinc catalogue are replaced by the float-class shapes below (no text stage here)
+    T = [dict(t, shape=t['name']) for t in zc.templates(ctx.quick(), only_wf=True) if not t['name'].startswith(('num-dec', 'num-unit-')) and t['name'] != 'coord']
     for n in extra_shapes(): T.append({'name': n, 'shape': n, 'wf': True, 'extra': True})
     return T
 
